@@ -25,6 +25,21 @@ type VerifC15Round struct {
 	P     *Processor
 	Party *SignParty
 	r0    *round0
+	last  *round1 // the round1 seen by GenerateBlock (the party drops its rounds when it completes)
+}
+
+// verifC15Chain remembers the signing round at the moment the finalizer asks
+// the chain to generate the block; every call is forwarded unchanged.
+type verifC15Chain struct {
+	core.BlockChain
+	v *VerifC15Round
+}
+
+func (c *verifC15Chain) GenerateBlock(bh types.BlockHeader) *types.Block {
+	if r2, ok := c.v.Party.rnd.(*round2); ok {
+		c.v.last = r2.round1
+	}
+	return c.BlockChain.GenerateBlock(bh)
 }
 
 const verifC15Kick = "verif-c15-kick"
@@ -35,6 +50,8 @@ const verifC15Kick = "verif-c15-kick"
 // proposal facts. Call Enter to let the party advance into round1.
 func VerifC15NewRound(chain core.BlockChain, group *model.GroupInfo, preBH, bh *types.BlockHeader,
 	mi groupsig.ID, logger log.Logger, early []*model.ConsensusVerifyMessage) (*VerifC15Round, *Error) {
+	v := &VerifC15Round{}
+	chain = &verifC15Chain{BlockChain: chain, v: v}
 	p := &Processor{}
 	p.partyManager = make(map[string]Party, 10)
 	p.partyLock = middleware.NewLoglock("partyLock")
@@ -67,7 +84,8 @@ func VerifC15NewRound(chain core.BlockChain, group *model.GroupInfo, preBH, bh *
 	r0.partyId = key
 	r0.processed[verifC15Kick] = 1
 	p.partyManager[key] = party
-	return &VerifC15Round{P: p, Party: party, r0: r0}, nil
+	v.P, v.Party, v.r0 = p, party, r0
+	return v, nil
 }
 
 // Enter marks round0 as passed and runs baseParty.Update's own advance loop
@@ -87,7 +105,8 @@ type VerifC15Share struct {
 
 // VerifC15State is a snapshot of what the signing round has collected.
 type VerifC15State struct {
-	Round        int  // -1 when the party has no round left
+	Ended        bool // the party has no round left (p.rnd == nil)
+	Round        int  // round number; -1 when no round state is reachable any more
 	CanProcessed bool
 	Finished     bool // round2.Start ran
 	Threshold    int
@@ -118,7 +137,7 @@ func (v *VerifC15Round) State() VerifC15State {
 	v.Party.lock()
 	defer v.Party.unlock()
 	st := VerifC15State{Round: -1}
-	var r1 *round1
+	r1 := v.last
 	switch r := v.Party.rnd.(type) {
 	case *round0:
 		st.Round = r.RoundNumber()
@@ -129,6 +148,7 @@ func (v *VerifC15Round) State() VerifC15State {
 		r1 = r.round1
 		st.Finished = r.finished
 	}
+	st.Ended = v.Party.rnd == nil
 	if r1 != nil {
 		st.Round = r1.RoundNumber()
 		st.CanProcessed = r1.canProcessed
